@@ -93,7 +93,231 @@ theorem step_setGlobal {C K pc i v stk g} (h : codeAt C pc [Instr.setGlobal i]) 
 theorem step_defGlobal {C K pc i v stk g} (h : codeAt C pc [Instr.defGlobal i]) (hi : i < g.length) :
     step C K ⟨pc, v :: stk, g⟩ = some ⟨pc + 3, stk, g.set i v⟩ := by simp [step, fetch_codeAt h, hi]
 
+theorem step_dup {C K pc v stk g} (h : codeAt C pc [Instr.dup]) :
+    step C K ⟨pc, v :: stk, g⟩ = some ⟨pc + 1, v :: v :: stk, g⟩ := by simp [step, fetch_codeAt h]
+
+theorem codeAt.to {C pos pos' c} (h : codeAt C pos c) (e : pos = pos') : codeAt C pos' c := e ▸ h
+
+/-- peel the first instruction off a block -/
+theorem codeAt_cons {C pos i rest} (h : codeAt C pos (i :: rest)) :
+    codeAt C pos [i] ∧ codeAt C (pos + i.size) rest := by
+  have h' : codeAt C pos ([i] ++ rest) := by simpa using h
+  exact ⟨codeAt_left h', by simpa [bytes] using codeAt_right h'⟩
+
+/-! ## match: patterns -/
+
+theorem bytes_compilePat (pos k t : Nat) (p : CPat) : bytes (compilePat pos k t p) = patBytes p := by
+  cases p with
+  | bool b => cases b <;> simp [compilePat, patBytes, bytes, Instr.size]
+  | _ => simp [compilePat, patBytes, bytes, Instr.size]
+
+theorem bytes_compilePats (t : Nat) : ∀ (ps : List CPat) (pos k : Nat), bytes (compilePats pos k t ps) = patsBytes ps
+  | [], _, _ => by simp [compilePats, patsBytes, bytes]
+  | p :: ps, pos, k => by
+    simp [compilePats, patsBytes, bytes_append, bytes_compilePat, bytes_compilePats t ps]
+
+/-- one comparison of the template: `Dup; <push c>; <op>; JumpIfFalse t` with the scrutinee on
+top of the stack leaves the scrutinee and goes to `t` or falls through -/
+theorem cmp_steps {C K pos v c r stk g o t} (push : Instr) (hsz : push.size = sz)
+    (hpush : ∀ stk', step C K ⟨pos + 1, stk', g⟩ = some ⟨pos + 1 + sz, c :: stk', g⟩)
+    (h : codeAt C pos [.dup, push, .op o, .jif t]) (hop : execOperator o v c = .ok r) :
+    Steps C K ⟨pos, v :: stk, g⟩ ⟨if r.isFalsey then t else pos + 1 + sz + 1 + 3, v :: stk, g⟩ := by
+  obtain ⟨h1, h⟩ := codeAt_cons h
+  obtain ⟨_, h⟩ := codeAt_cons h
+  rw [hsz] at h
+  obtain ⟨h3, h⟩ := codeAt_cons h
+  obtain ⟨h4, _⟩ := codeAt_cons h
+  have h3 : codeAt C (pos + 1 + sz) [Instr.op o] := h3
+  have h4 : codeAt C (pos + 1 + sz + 1) [Instr.jif t] := h4
+  refine (Steps.one (step_dup h1)).trans ((Steps.one (hpush _)).trans ((Steps.one (step_op h3 hop)).trans ?_))
+  exact (Steps.one (step_jif h4)).to (by simp)
+
+theorem pat_correct (p : CPat) (C : List Instr) (K : List Val) (pos k t : Nat) (v : Val) (stk g : List Val) (b : Bool)
+    (h : codeAt C pos (compilePat pos k t p)) (hp : poolAt K k (patConsts p)) (ht : patTest v p = some b) :
+    Steps C K ⟨pos, v :: stk, g⟩ ⟨if b then t else pos + patBytes p, v :: stk, g⟩ := by
+  cases p with
+  | lit c =>
+    simp only [patTest] at ht
+    simp only [compilePat] at h
+    cases hop : execOperator .notEqual v c with
+    | ok r =>
+      simp only [hop, Option.some.injEq] at ht
+      subst ht
+      have hc : codeAt C (pos + 1) [Instr.const k] := (codeAt_cons (codeAt_cons h).2).1
+      have := cmp_steps (sz := 3) (g := g) (stk := stk) (.const k) rfl (fun stk' => step_const hc (poolAt_get (by simpa [patConsts] using hp))) h hop
+      exact this.to (by simp [patBytes])
+    | err m => simp [hop] at ht
+    | panic m => simp [hop] at ht
+  | bool c =>
+    simp only [patTest] at ht
+    simp only [compilePat] at h
+    cases hop : execOperator .notEqual v (.bool c) with
+    | ok r =>
+      simp only [hop, Option.some.injEq] at ht
+      subst ht
+      cases c with
+      | true =>
+        have h : codeAt C pos [.dup, .tru, .op .notEqual, .jif t] := by simpa using h
+        have hc : codeAt C (pos + 1) [Instr.tru] := (codeAt_cons (codeAt_cons h).2).1
+        have := cmp_steps (sz := 1) (K := K) (g := g) (stk := stk) .tru rfl (fun stk' => step_tru hc) h hop
+        exact this.to (by simp [patBytes])
+      | false =>
+        have h : codeAt C pos [.dup, .fls, .op .notEqual, .jif t] := by simpa using h
+        have hc : codeAt C (pos + 1) [Instr.fls] := (codeAt_cons (codeAt_cons h).2).1
+        have := cmp_steps (sz := 1) (K := K) (g := g) (stk := stk) .fls rfl (fun stk' => step_fls hc) h hop
+        exact this.to (by simp [patBytes])
+    | err m => simp [hop] at ht
+    | panic m => simp [hop] at ht
+  | range incl lo hi =>
+    simp only [patTest] at ht
+    simp only [compilePat] at h
+    have hA : codeAt C pos [.dup, .const k, .op .greaterEq, .jif (pos + 16)] :=
+      codeAt_left (b := [.dup, .const (k + 1), .op (if incl then .greater else .greaterEq), .jif t]) (by simpa using h)
+    have hB : codeAt C (pos + 8) [.dup, .const (k + 1), .op (if incl then .greater else .greaterEq), .jif t] := by
+      have := codeAt_right (a := [.dup, .const k, .op .greaterEq, .jif (pos + 16)]) (by simpa using h)
+      simpa [bytes, Instr.size] using this
+    have hp1 : poolAt K k [lo] := poolAt_left (b := [hi]) (by simpa [patConsts] using hp)
+    have hp2 : poolAt K (k + 1) [hi] := by
+      have := poolAt_right (a := [lo]) (b := [hi]) (by simpa [patConsts] using hp)
+      simpa using this
+    cases hop1 : execOperator .greaterEq v lo with
+    | ok r1 =>
+      simp only [hop1] at ht
+      have hc1 : codeAt C (pos + 1) [Instr.const k] := (codeAt_cons (codeAt_cons hA).2).1
+      have s1 := cmp_steps (sz := 3) (g := g) (stk := stk) (.const k) rfl (fun stk' => step_const hc1 (poolAt_get hp1)) hA hop1
+      by_cases hf : r1.isFalsey = true
+      · simp only [hf, if_true, Option.some.injEq] at ht s1
+        subst ht
+        exact s1.to (by simp [patBytes])
+      · simp only [hf, Bool.false_eq_true, if_false] at ht s1
+        cases hop2 : execOperator (if incl then .greater else .greaterEq) v hi with
+        | ok r2 =>
+          simp only [hop2, Option.some.injEq] at ht
+          subst ht
+          have hc2 : codeAt C (pos + 8 + 1) [Instr.const (k + 1)] := (codeAt_cons (codeAt_cons hB).2).1
+          have s2 := cmp_steps (sz := 3) (g := g) (stk := stk) (.const (k + 1)) rfl (fun stk' => step_const hc2 (poolAt_get hp2)) hB hop2
+          exact ((s1.to (by simp)).trans s2).to (by simp [patBytes])
+        | err m => simp [hop2] at ht
+        | panic m => simp [hop2] at ht
+    | err m => simp [hop1] at ht
+    | panic m => simp [hop1] at ht
+  | dflt =>
+    simp only [patTest, Option.some.injEq] at ht
+    subst ht
+    simp only [compilePat] at h
+    exact (Steps.one (step_jump h)).to (by simp)
+
+theorem pats_correct : ∀ (ps : List CPat) (C : List Instr) (K : List Val) (pos k t : Nat) (v : Val) (stk g : List Val) (b : Bool),
+    codeAt C pos (compilePats pos k t ps) → poolAt K k (patsConsts ps) → patsTest v ps = some b →
+    Steps C K ⟨pos, v :: stk, g⟩ ⟨if b then t else pos + patsBytes ps, v :: stk, g⟩
+  | [], C, K, pos, k, t, v, stk, g, b, _, _, ht => by
+    simp only [patsTest, Option.some.injEq] at ht
+    subst ht
+    exact (Steps.refl _).to (by simp [patsBytes])
+  | p :: ps, C, K, pos, k, t, v, stk, g, b, h, hp, ht => by
+    simp only [compilePats] at h
+    simp only [patsConsts] at hp
+    simp only [patsTest] at ht
+    cases h1 : patTest v p with
+    | none => simp [h1] at ht
+    | some b1 =>
+      have s1 := pat_correct p C K pos k t v stk g b1 (codeAt_left h) (poolAt_left hp) h1
+      cases b1 with
+      | true =>
+        simp only [h1, Option.some.injEq] at ht
+        subst ht
+        exact s1
+      | false =>
+        simp only [h1] at ht
+        have hr := codeAt_right h
+        rw [bytes_compilePat] at hr
+        have s2 := pats_correct ps C K (pos + patBytes p) (k + (patConsts p).length) t v stk g b hr (poolAt_right hp) ht
+        refine (s1.to (by simp)).trans (s2.to ?_)
+        cases b <;> simp [patsBytes, Nat.add_assoc]
+
 /-! ## the theorem -/
+
+/-- the statement of `compile_correct` for one expression -/
+def ExprSpec (e : CExpr) : Prop :=
+  ∀ (C : List Instr) (K : List Val) (pos k : Nat) (stk g : List Val) (v : Val) (g' : List Val),
+    codeAt C pos (compile pos k e) → poolAt K k (consts e) → eval g e = some (v, g') →
+    Steps C K ⟨pos, stk, g⟩ ⟨pos + bytes (compile pos k e), v :: stk, g'⟩
+
+/-- the arms of a match, entered with the scrutinee `v` on top of the stack: the machine
+reaches the end of the arms' code with the scrutinee replaced by the value of the first arm
+that matches -/
+theorem arms_correct : ∀ (arms : CArms), arms.All ExprSpec →
+    ∀ (C : List Instr) (K : List Val) (pos k : Nat) (stk g : List Val) (v r : Val) (g' : List Val),
+    codeAt C pos (compileArms pos k arms) → poolAt K k (constsArms arms) → evalArms g v arms = some (r, g') →
+    Steps C K ⟨pos, v :: stk, g⟩ ⟨pos + bytes (compileArms pos k arms), r :: stk, g'⟩ := by
+  intro arms
+  induction arms using CArms.ind with
+  | last d =>
+    intro hall C K pos k stk g v r g' h hp he
+    simp only [CArms.All] at hall
+    simp only [compileArms] at h ⊢
+    simp only [constsArms] at hp
+    simp only [evalArms] at he
+    generalize hcd : compile (pos + 3 + 3 + 1) k d = cd at *
+    obtain ⟨h1, h⟩ := codeAt_cons (by simpa using h)
+    obtain ⟨_, h⟩ := codeAt_cons h
+    obtain ⟨h3, h⟩ := codeAt_cons h
+    simp only [Instr.size] at h3 h
+    have sd := hall C K (pos + 3 + 3 + 1) k stk g r g' (hcd ▸ h) hp he
+    rw [hcd] at sd
+    refine (Steps.one (step_jump h1)).trans ((Steps.one (step_pop h3)).trans (sd.to ?_))
+    simp [bytes_append, bytes, Instr.size]; omega
+  | cons pats body rest ih =>
+    intro hall C K pos k stk g v r g' h hp he
+    simp only [CArms.All] at hall
+    simp only [compileArms] at h ⊢
+    simp only [constsArms] at hp
+    simp only [evalArms] at he
+    generalize hcb : compile (pos + patsBytes pats + 3 + 1) (k + (patsConsts pats).length) body = cb at *
+    generalize hcr : compileArms (pos + patsBytes pats + 3 + 1 + bytes cb + 3)
+      (k + (patsConsts pats).length + (consts body).length) rest = cr at *
+    have hpats : codeAt C pos (compilePats pos k (pos + patsBytes pats + 3) pats) :=
+      codeAt_left (codeAt_left (codeAt_left (codeAt_left h)))
+    have hjo : codeAt C (pos + patsBytes pats) [Instr.jump (pos + patsBytes pats + 3 + 1 + bytes cb + 3)] := by
+      have := codeAt_mid (compilePats pos k (pos + patsBytes pats + 3) pats) [_]
+        (.pop :: (cb ++ [.jump (pos + patsBytes pats + 3 + 1 + bytes cb + 3 + bytes cr)] ++ cr)) (by simpa using h)
+      simpa [bytes_compilePats] using this
+    have hpop : codeAt C (pos + patsBytes pats + 3) [Instr.pop] := by
+      have := codeAt_mid (compilePats pos k (pos + patsBytes pats + 3) pats ++ [.jump (pos + patsBytes pats + 3 + 1 + bytes cb + 3)]) [.pop]
+        (cb ++ [.jump (pos + patsBytes pats + 3 + 1 + bytes cb + 3 + bytes cr)] ++ cr) (by simpa using h)
+      simpa [bytes_append, bytes_compilePats, bytes, Instr.size, Nat.add_assoc] using this
+    have hbody : codeAt C (pos + patsBytes pats + 3 + 1) cb := by
+      have := codeAt_right (codeAt_left (codeAt_left h))
+      simpa [bytes_append, bytes_compilePats, bytes, Instr.size, Nat.add_assoc] using this
+    have hje : codeAt C (pos + patsBytes pats + 3 + 1 + bytes cb)
+        [Instr.jump (pos + patsBytes pats + 3 + 1 + bytes cb + 3 + bytes cr)] := by
+      exact (codeAt_right (codeAt_left h)).to (by simp [bytes_append, bytes_compilePats, bytes, Instr.size]; omega)
+    have hrest : codeAt C (pos + patsBytes pats + 3 + 1 + bytes cb + 3) cr := by
+      exact (codeAt_right h).to (by simp [bytes_append, bytes_compilePats, bytes, Instr.size]; omega)
+    have hpp : poolAt K k (patsConsts pats) := poolAt_left (poolAt_left hp)
+    have hpb : poolAt K (k + (patsConsts pats).length) (consts body) := poolAt_right (poolAt_left hp)
+    have hpr : poolAt K (k + (patsConsts pats).length + (consts body).length) (constsArms rest) := by
+      have := poolAt_right hp
+      simpa [Nat.add_assoc] using this
+    cases hm : patsTest v pats with
+    | none => simp [hm] at he
+    | some b =>
+      have sp := pats_correct pats C K pos k (pos + patsBytes pats + 3) v stk g b hpats hpp hm
+      cases b with
+      | true =>
+        simp only [hm] at he
+        simp only [if_true] at sp
+        have sb := hall.1 C K _ _ stk g r g' (hcb ▸ hbody) hpb he
+        rw [hcb] at sb
+        refine sp.trans ((Steps.one (step_pop hpop)).trans (sb.trans ((Steps.one (step_jump hje)).to ?_)))
+        simp [bytes_append, bytes_compilePats, bytes, Instr.size]; omega
+      | false =>
+        simp only [hm] at he
+        simp only [Bool.false_eq_true, if_false] at sp
+        have sr := ih hall.2 C K _ _ stk g v r g' (hcr ▸ hrest) hpr he
+        rw [hcr] at sr
+        refine sp.trans ((Steps.one (step_jump hjo)).trans (sr.to ?_))
+        simp [bytes_append, bytes_compilePats, bytes, Instr.size]; omega
 
 theorem compile_correct : ∀ (e : CExpr) (C : List Instr) (K : List Val) (pos k : Nat) (stk g : List Val) (v : Val) (g' : List Val),
     codeAt C pos (compile pos k e) → poolAt K k (consts e) → eval g e = some (v, g') →
@@ -377,5 +601,18 @@ theorem compile_correct : ∀ (e : CExpr) (C : List Instr) (K : List Val) (pos k
         have hs : codeAt C (pos + bytes ca) [Instr.setGlobal i] := codeAt_mid ca [_] [] (by simpa using h)
         exact (ha.trans (Steps.one (step_setGlobal hs hi))).to (by simp [bytes_append, bytes, Instr.size]; omega)
       · simp [hi] at he
+  | matchE s arms ihs iharms =>
+    intro C K pos k stk g v g' h hp he
+    simp only [compile] at h ⊢
+    simp only [eval] at he
+    simp only [consts] at hp
+    cases hes : eval g s with
+    | none => simp [hes] at he
+    | some r =>
+      obtain ⟨vs, g1⟩ := r
+      simp only [hes] at he
+      have s1 := ihs C K pos k stk g vs g1 (codeAt_left h) (poolAt_left hp) hes
+      have s2 := arms_correct arms iharms C K _ _ stk g1 vs v g' (codeAt_right h) (poolAt_right hp) he
+      exact (s1.trans s2).to (by simp [bytes_append]; omega)
 
 end P2sh.Core
